@@ -118,7 +118,12 @@ def gen_one(rng, tier, magic=False, hidden=False):
         calls.append({'root': rng.randrange(len(roots)),
                       'nest': rng.choice([None, None, True, False]),
                       'trim': rng.choice([None, None, True, False]),
-                      'root_by_arg': rng.random() < 0.5})
+                      'root_by_arg': rng.random() < 0.5,
+                      # the root spelled with a trailing separator
+                      'trailing_sep': rng.random() < 0.2,
+                      # a file appears in an existing (nested) directory
+                      # between two populations by the same populator
+                      'add_file': rng.random() < 0.25})
     return {'roots': roots, 'rules': rules,
             'ctor': {'nest': rng.random() < 0.6, 'trim': rng.random() < 0.5},
             'calls': calls, 'magic': magic, 'hidden': hidden}
@@ -242,6 +247,17 @@ def _run(case, desper, res, tmp):
 
     for at, call in enumerate(case['calls']):
         root = roots[call['root']]
+        if at and call.get('add_file'):
+            tree = case['roots'][call['root']]
+            where = sorted(tree['dirs'], key=lambda d: -d.count('/'))
+            target = os.path.join(root, where[0] if where else '',
+                                  f'late{at}.txt')
+            with open(target, 'w') as fout:
+                fout.write('x')
+            res.tags['file_added_between_populations'].add(True)
+        if call.get('trailing_sep'):
+            root = root + os.sep
+            res.tags['root_with_trailing_separator'].add(True)
         nest = case['ctor']['nest'] if call['nest'] is None else call['nest']
         trim = case['ctor']['trim'] if call['trim'] is None else call['trim']
         status, per_rule, dir_keys = expected_population(
@@ -403,8 +419,10 @@ def shrink(case):
 
 def classify(case, div):
     key = str(div.get('key') or '')
-    if div['kind'] == 'file-not-reachable' and any(
+    if div['kind'] in ('file-not-reachable', 'wrong-handle') and any(
             part.startswith('.') for part in key.split('/')):
+        # (wrong-handle: the last rule that should have produced the key
+        # skipped the hidden entry, an earlier rule's handle is still there)
         return 'hidden-entries-skipped'
     if div['kind'] == 'population-outcome' and 'NameError' in str(
             div.get('observed')):
